@@ -302,7 +302,7 @@ pub fn gen18(rng: &mut Rng, tier: &str) -> String {
         0 | 1 => "n".to_string(),
         2 => format!("s{}", rng.below(5)),
         3 => format!("s{}", rng.range(5, 9)),
-        _ => format!("s{}", *rng.pick(&[nk.saturating_sub(1), nk, nk + 1, nk + 5, 0usize])),
+        _ => format!("s{}", *rng.pick(&[nk.saturating_sub(1), nk, nk + 1, nk + 5, 0usize, usize::MAX, usize::MAX - 2, 1usize << 63])),
     }).collect();
     format!("C18 iter {} {} {} {}", k, txt.join(","), idx, calls.join(","))
 }
